@@ -1,4 +1,4 @@
-import FeatherModel.Lemmas.ClassReadFramesSM
+import FeatherModel.Lemmas.ClassReadCodeTypeAnnos
 
 /-! C01 lemmas: the attribute loop of `read_code` on the attributes of the proved fragment. -/
 
@@ -25,12 +25,19 @@ def localsRaw (lf : Labels) (pos : Nat → Nat) : List SCodeAttr → Option (Lis
   | .lvtt _ es :: r => some (es.map (lvRaw lf pos true) ++ (localsRaw lf pos r).getD [])
   | _ :: r => localsRaw lf pos r
 
+/-- the type annotations of one visibility as the reader delivers them (label ids for instruction indices) -/
+def tAnnosRaw (lf : Labels) (pos : Nat → Nat) (visible : Bool) : List SCodeAttr → List TypeAnno
+  | [] => []
+  | .typeAnnos _ v as :: r => (if v = visible then as.map (typeAnnoRaw lf pos) else []) ++ tAnnosRaw lf pos visible r
+  | _ :: r => tAnnosRaw lf pos visible r
+
 /-- the offsets an attribute of the fragment refers to -/
 def attrRefs (pos : Nat → Nat) : SCodeAttr → List Nat
   | .frames _ fs => fs.flatMap (fun f => f.kind.refs pos ++ [pos f.at_])
   | .lines _ es => es.flatMap (fun e => [pos e.1])
   | .lvt _ es => es.flatMap (fun v => [pos v.start, pos v.end_])
   | .lvtt _ es => es.flatMap (fun v => [pos v.start, pos v.end_])
+  | .typeAnnos _ _ as => as.flatMap (fun a => targetRefs pos a.target)
   | .unknown _ _ _ => []
 
 abbrev isFramesAttr : SCodeAttr → Bool := SCodeAttr.isFrames
@@ -48,6 +55,10 @@ theorem appendOpt_assoc {α : Type} (a : Option (List α)) (x : List α) (b : Op
 
 theorem ne_lines : sLineNumberTable ≠ sStackMapTable ∧ sLineNumberTable ≠ sStackMap := by decide
 theorem ne_lvt : sLocalVariableTable ≠ sStackMapTable ∧ sLocalVariableTable ≠ sStackMap ∧ sLocalVariableTable ≠ sLineNumberTable := by decide
+theorem ne_rvta : sRVTA ≠ sStackMapTable ∧ sRVTA ≠ sStackMap ∧ sRVTA ≠ sLineNumberTable ∧ sRVTA ≠ sLocalVariableTable ∧
+    sRVTA ≠ sLocalVariableTypeTable := by decide
+theorem ne_rita : sRITA ≠ sStackMapTable ∧ sRITA ≠ sStackMap ∧ sRITA ≠ sLineNumberTable ∧ sRITA ≠ sLocalVariableTable ∧
+    sRITA ≠ sLocalVariableTypeTable ∧ sRITA ≠ sRVTA := by decide
 theorem ne_lvtt : sLocalVariableTypeTable ≠ sStackMapTable ∧ sLocalVariableTypeTable ≠ sStackMap ∧
     sLocalVariableTypeTable ≠ sLineNumberTable ∧ sLocalVariableTypeTable ≠ sLocalVariableTable := by decide
 
@@ -58,11 +69,12 @@ theorem readCodeAttr_ok (p : Pool) (pos : Nat → Nat) (n cl : Nat) (hp : PosOk 
     (st : CodeAttrState) (r : Bytes) (hwf : st.labels.WF) (hcl : st.labels.codeLength = cl)
     (hcnt : st.labels.count + a.labelRefs < 65536) (hfr : isFramesAttr a = true → st.frames = none) :
     ∃ st', readCodeAttr p st (a.encode pos ++ r) = ok (st', r) ∧ st'.labels.WF ∧ Labels.Le st.labels st'.labels ∧
-      st'.labels.count ≤ st.labels.count + a.labelRefs ∧ st'.rvta = st.rvta ∧ st'.ritva = st.ritva ∧
+      st'.labels.count ≤ st.labels.count + a.labelRefs ∧
       st'.attrs = st.attrs ++ unknownsOf [a] ∧ (∀ pc ∈ attrRefs pos a, (st'.labels.get pc).isSome = true) ∧
       ∀ lf, Labels.Le st'.labels lf →
         st'.lines = appendOpt st.lines (linesRaw lf pos [a]) ∧ st'.locals = appendOpt st.locals (localsRaw lf pos [a]) ∧
-        st'.frames = (match a with | .frames _ fs => some (framesRaw lf pos fs) | _ => st.frames) := by
+        st'.frames = (match a with | .frames _ fs => some (framesRaw lf pos fs) | _ => st.frames) ∧
+        st'.rvta = st.rvta ++ tAnnosRaw lf pos true [a] ∧ st'.ritva = st.ritva ++ tAnnosRaw lf pos false [a] := by
   cases a with
   | frames nc fs =>
     obtain ⟨hnc, hname, hlen, hfl, hbody⟩ := ha
@@ -70,13 +82,13 @@ theorem readCodeAttr_ok (p : Pool) (pos : Nat → Nat) (n cl : Nat) (hp : PosOk 
     obtain ⟨v, l', h1, hwf', hle', hc', hr', hv'⟩ := readFrames_ok p pos n cl hp hmonoS fs none hfl st.labels r hwf hcl
       (by simpa [SCodeAttr.labelRefs] using hcnt)
     simp only [Option.isNone_none, prevOff, Option.map_none] at h1
-    refine ⟨{ st with labels := l', frames := some v }, ?_, hwf', hle', by simpa [SCodeAttr.labelRefs] using hc', rfl, rfl,
+    refine ⟨{ st with labels := l', frames := some v }, ?_, hwf', hle', by simpa [SCodeAttr.labelRefs] using hc',
       by simp [unknownsOf], hr', ?_⟩
     · simp only [readCodeAttr, SCodeAttr.encode, attrFrame, List.append_assoc, u16_be16 _ hnc, ok_bind, hname,
         u32_be32 _ hbody, if_true, u16_be16 _ hlen, h1, hnone, insertIfEmpty, pure_eq]
     · intro lf hlf
       have := hv' lf hlf
-      simp [appendOpt, linesRaw, localsRaw, this, framesRaw]
+      simp [appendOpt, linesRaw, localsRaw, this, framesRaw, tAnnosRaw]
   | lines nc es =>
     obtain ⟨hnc, hname, hlen, hes⟩ := ha
     have hbody : (be16 es.length ++ es.flatMap (fun e => be16 (pos e.1) ++ be16 e.2)).length < 4294967296 := by
@@ -90,12 +102,12 @@ theorem readCodeAttr_ok (p : Pool) (pos : Nat → Nat) (n cl : Nat) (hp : PosOk 
         simpa [List.append_assoc] using this)
       st.labels hwf hcl (by rw [hk]; simpa [SCodeAttr.labelRefs] using hcnt) r
     refine ⟨{ st with labels := l', lines := some (st.lines.getD [] ++ v) }, ?_, hwf', hle',
-      by rw [hk] at hc'; simpa [SCodeAttr.labelRefs] using hc', rfl, rfl, by simp [unknownsOf], hr', ?_⟩
+      by rw [hk] at hc'; simpa [SCodeAttr.labelRefs] using hc', by simp [unknownsOf], hr', ?_⟩
     · simp only [readCodeAttr, SCodeAttr.encode, attrFrame, List.append_assoc, u16_be16 _ hnc, ok_bind, hname,
         u32_be32 _ hbody, ne_lines.1, ne_lines.2, if_false, if_true, u16_be16 _ hlen, readLines, h1, pure_eq]
     · intro lf hlf
       have := hv' lf hlf
-      simp [appendOpt, linesRaw, localsRaw, this]
+      simp [appendOpt, linesRaw, localsRaw, this, tAnnosRaw]
   | lvt nc es =>
     obtain ⟨hnc, hname, hlen, hes⟩ := ha
     have hbody : (be16 es.length ++ es.flatMap (SLv.encode pos)).length < 4294967296 := by
@@ -107,12 +119,12 @@ theorem readCodeAttr_ok (p : Pool) (pos : Nat → Nat) (n cl : Nat) (hp : PosOk 
       (fun e he l r hwf hcl hcnt => readLv_ok p pos n cl hp hmono false e (hes e he) l r hwf hcl hcnt)
       st.labels hwf hcl (by rw [hk]; simpa [SCodeAttr.labelRefs] using hcnt) r
     refine ⟨{ st with labels := l', locals := some (st.locals.getD [] ++ v) }, ?_, hwf', hle',
-      by rw [hk] at hc'; simpa [SCodeAttr.labelRefs] using hc', rfl, rfl, by simp [unknownsOf], hr', ?_⟩
+      by rw [hk] at hc'; simpa [SCodeAttr.labelRefs] using hc', by simp [unknownsOf], hr', ?_⟩
     · simp only [readCodeAttr, SCodeAttr.encode, attrFrame, List.append_assoc, u16_be16 _ hnc, ok_bind, hname,
         u32_be32 _ hbody, ne_lvt.1, ne_lvt.2.1, ne_lvt.2.2, if_false, if_true, u16_be16 _ hlen, h1, pure_eq]
     · intro lf hlf
       have := hv' lf hlf
-      simp [appendOpt, linesRaw, localsRaw, this]
+      simp [appendOpt, linesRaw, localsRaw, this, tAnnosRaw]
   | lvtt nc es =>
     obtain ⟨hnc, hname, hlen, hes⟩ := ha
     have hbody : (be16 es.length ++ es.flatMap (SLv.encode pos)).length < 4294967296 := by
@@ -124,21 +136,46 @@ theorem readCodeAttr_ok (p : Pool) (pos : Nat → Nat) (n cl : Nat) (hp : PosOk 
       (fun e he l r hwf hcl hcnt => readLv_ok p pos n cl hp hmono true e (hes e he) l r hwf hcl hcnt)
       st.labels hwf hcl (by rw [hk]; simpa [SCodeAttr.labelRefs] using hcnt) r
     refine ⟨{ st with labels := l', locals := some (st.locals.getD [] ++ v) }, ?_, hwf', hle',
-      by rw [hk] at hc'; simpa [SCodeAttr.labelRefs] using hc', rfl, rfl, by simp [unknownsOf], hr', ?_⟩
+      by rw [hk] at hc'; simpa [SCodeAttr.labelRefs] using hc', by simp [unknownsOf], hr', ?_⟩
     · simp only [readCodeAttr, SCodeAttr.encode, attrFrame, List.append_assoc, u16_be16 _ hnc, ok_bind, hname,
         u32_be32 _ hbody, ne_lvtt.1, ne_lvtt.2.1, ne_lvtt.2.2.1, ne_lvtt.2.2.2, if_false, if_true, u16_be16 _ hlen, h1, pure_eq]
     · intro lf hlf
       have := hv' lf hlf
-      simp [appendOpt, linesRaw, localsRaw, this]
+      simp [appendOpt, linesRaw, localsRaw, this, tAnnosRaw]
+  | typeAnnos nc visible as =>
+    obtain ⟨hnc, hname, hlen, hes, hbody⟩ := ha
+    obtain ⟨v, l', h1, hwf', hle', hc', hr', hv'⟩ := readTypeAnnosCode_ok p pos n cl hp hmono as hlen hes st.labels r hwf hcl
+      (by simpa [SCodeAttr.labelRefs] using hcnt)
+    simp only [List.append_assoc] at h1
+    cases visible with
+    | true =>
+      simp only [if_true] at hname
+      refine ⟨{ st with labels := l', rvta := st.rvta ++ v }, ?_, hwf', hle', by simpa [SCodeAttr.labelRefs] using hc',
+        by simp [unknownsOf], hr', ?_⟩
+      · simp only [readCodeAttr, SCodeAttr.encode, attrFrame, List.append_assoc, u16_be16 _ hnc, ok_bind, hname,
+          u32_be32 _ hbody, ne_rvta.1, ne_rvta.2.1, ne_rvta.2.2.1, ne_rvta.2.2.2.1, ne_rvta.2.2.2.2, if_false, if_true, h1, pure_eq]
+      · intro lf hlf
+        have := hv' lf hlf
+        simp [appendOpt, linesRaw, localsRaw, this, tAnnosRaw]
+    | false =>
+      simp only [Bool.false_eq_true, if_false] at hname
+      refine ⟨{ st with labels := l', ritva := st.ritva ++ v }, ?_, hwf', hle', by simpa [SCodeAttr.labelRefs] using hc',
+        by simp [unknownsOf], hr', ?_⟩
+      · simp only [readCodeAttr, SCodeAttr.encode, attrFrame, List.append_assoc, u16_be16 _ hnc, ok_bind, hname,
+          u32_be32 _ hbody, ne_rita.1, ne_rita.2.1, ne_rita.2.2.1, ne_rita.2.2.2.1, ne_rita.2.2.2.2.1, ne_rita.2.2.2.2.2,
+          if_false, if_true, h1, pure_eq]
+      · intro lf hlf
+        have := hv' lf hlf
+        simp [appendOpt, linesRaw, localsRaw, this, tAnnosRaw]
   | unknown nc name b =>
     obtain ⟨hnc, hname, hnot, hlen⟩ := ha
     simp only [codeAttrNames, List.mem_cons, List.not_mem_nil, or_false, not_or] at hnot
     obtain ⟨n1, n2, n3, n4, n5, n6, n7⟩ := hnot
-    refine ⟨{ st with attrs := st.attrs ++ [⟨name, b⟩] }, ?_, hwf, Labels.Le.refl _, by simp [SCodeAttr.labelRefs], rfl, rfl,
+    refine ⟨{ st with attrs := st.attrs ++ [⟨name, b⟩] }, ?_, hwf, Labels.Le.refl _, by simp [SCodeAttr.labelRefs],
       by simp [unknownsOf], by simp [attrRefs], ?_⟩
     · simp only [readCodeAttr, SCodeAttr.encode, attrFrame, List.append_assoc, u16_be16 _ hnc, ok_bind, hname,
         u32_be32 _ hlen, n1, n2, n3, n4, n5, n6, n7, if_false, takeN_append, pure_eq]
     · intro lf _
-      simp [appendOpt, linesRaw, localsRaw]
+      simp [appendOpt, linesRaw, localsRaw, tAnnosRaw]
 
 end ClassRead
